@@ -30,16 +30,30 @@ def valueRepr (printable : Char → Bool) (p : Param) : Str :=
     | v => reprInst printable v       -- `None` stays `None`
   else reprInst printable p.value
 
-/-- `self.value == self.default` (Python `==`; `NO_DEFAULT` equals nothing) -/
-def isDefaultVal (p : Param) : Bool :=
+/-- `repr(pathlib.Path(s))` for a normalised relative or absolute POSIX path text: `PosixPath('<s>')` -/
+def pathRepr (printable : Char → Bool) (s : Str) : Str := "PosixPath(".toList ++ pyRepr printable s ++ [')']
+
+/-- `self.value == self.default` (Python `==`; `NO_DEFAULT` equals nothing).  For a `dtype=Path` parameter `self.value` is
+`Path(_value)` unless `_value is None`: a string value equals the default only if the default is the `Path` object of that
+text (a `Path` default is the opaque object `PosixPath('<text>')`; domain: normalised path texts, where `Path` equality is
+equality of texts) — never a `str` default — and `None` equals only `None` -/
+def isDefaultVal (printable : Char → Bool) (p : Param) : Bool :=
   match p.default with
-  | some d => pyEq p.value d
+  | some d =>
+    if p.isPath then
+      match p.value, d with
+      | .atom a, .atom b => atomEq a b
+      | .str s, .obj r => r == pathRepr printable s
+      | .rstr s _, .obj r => r == pathRepr printable s
+      | .obj a, .obj b => a == b
+      | _, _ => false
+    else pyEq p.value d
   | none => false
 
 /-- `AbstractParameter.repr`: `none` when the parameter does not take part in persistence -/
 def paramRepr (printable : Char → Bool) (p : Param) : Option Str :=
   if p.ignore then none
-  else if p.dpd && isDefaultVal p then none
+  else if p.dpd && isDefaultVal printable p then none
   else some (p.name ++ '=' :: valueRepr printable p)
 
 /-- `'###'.join(parts)` -/
